@@ -57,7 +57,7 @@ where
             T::from_buffer(buf)
         } else if let Entry::Occupied(mut entry) = self.queue.entry(id) {
             let queue = entry.get_mut();
-            if queue.add_fragment(seq, buf) {
+            if queue.add_fragment(total, seq, buf) {
                 let buf = queue.assemble();
                 // tracing::trace!("reassembled {} bytes", buf.len());
                 entry.remove_entry();
@@ -152,8 +152,12 @@ impl ReassembleQueue {
             fragments,
         }
     }
-    fn add_fragment(&mut self, seq: u8, buf: Bytes) -> bool {
+    fn add_fragment(&mut self, total: u8, seq: u8, buf: Bytes) -> bool {
         let this = seq as usize;
+        if total as usize != self.fragments.len() {
+            // does not belong to the frame being collected under this id
+            return false;
+        }
         match self.fragments.get_mut(this) {
             Some(slot) if slot.is_none() => {
                 *slot = Some(buf);
